@@ -171,6 +171,18 @@ func runC07(c *Ctx) {
 	r.Doc("E11", "(= X1) every configured / added input is registered in the table under its own key, unconditionally", 4)
 	r.Doc("E12", "(= X9) v1 Simple: the supervising goroutine waits only for stop, cancel, the graceful request and the inner discipline's end", 7)
 	r.Doc("E9", "the error channel never delays termination: made with capacity >= 1 and written at most once per goroutine (reading Err() is optional)", 3)
+	// E17 (= R1, X10): v1 - an input handed to AddInput is registered when the call returns, so a
+	// GracefulStop requested after it cannot find "every input drained" without it (a queued
+	// command is dropped when the goroutine ends: GracefulStop returns with that input still open)
+	r.Doc("E17", "(= C17 R1) v1 command channels are unbuffered: an added input is registered, and seen by the drained test, when AddInput returns", 2)
+	if d := c.V1.Disc("priority.Discipline"); d != nil && len(d.Ctors) > 0 {
+		for _, f := range []string{"inputAdds", "inputRmvs"} {
+			capc := c.V1.chanCapacityConst(d, f)
+			r.Check(capc == 0, "E17", "v1:priority.Discipline#"+f, c.V1.Pos(d.Ctors[0].Pos()), "make(chan, 0)", fmt.Sprintf("command channel %s is made with capacity %d: AddInput returns before the scheduler has registered the input, a graceful stop requested next can find every registered input drained and return while the added input is still open", f, capc))
+		}
+	} else {
+		r.Fail("E17", "v1:priority.Discipline", "-", "UNRESOLVED-ANCHOR: v1 priority discipline not found")
+	}
 	for _, p := range []*Prog{c.V1, c.V2} {
 		sr, err := resolveSchedRoles(p)
 		if err != nil {
